@@ -81,3 +81,74 @@ class Ctx:
         self.extra[key] = self.extra.get(key, 0) + n
 
 
+
+
+# ----------------------------------------------------------------------------- real-process helpers
+
+
+def descendants(root=None):
+    """pids of all live descendants of `root` (default: this process), by scanning /proc"""
+    root = root or os.getpid()
+    parent = {}
+    for d in os.listdir("/proc"):
+        if not d.isdigit():
+            continue
+        try:
+            with open(f"/proc/{d}/stat") as f:
+                rest = f.read().rsplit(")", 1)[1].split()
+            parent[int(d)] = int(rest[1])
+        except (OSError, IndexError, ValueError):
+            continue
+    out, frontier = [], [root]
+    while frontier:
+        p = frontier.pop()
+        for c, pp in parent.items():
+            if pp == p and c not in out:
+                out.append(c)
+                frontier.append(c)
+    return out
+
+
+def proc_state(pid):
+    """'R','S','D','Z','T',... or None when the process does not exist"""
+    try:
+        with open(f"/proc/{pid}/stat") as f:
+            return f.read().rsplit(")", 1)[1].split()[0]
+    except (OSError, IndexError):
+        return None
+
+
+def alive(pid):
+    st = proc_state(pid)
+    return st is not None and st != "Z"
+
+
+class Watchdog:
+    """Wall-clock guard for cases that involve real processes: after `seconds` every descendant process
+    is SIGKILLed, which turns a hang into EOF/EPIPE in this process; `fired` tells the caller.
+    Used with bounds two orders of magnitude above the normal duration of a case."""
+
+    def __init__(self, seconds, extra_pids=()):
+        self.seconds, self.fired, self.extra = seconds, False, list(extra_pids)
+
+    def _fire(self):
+        import signal
+
+        self.fired = True
+        for pid in descendants() + self.extra:
+            try:
+                os.kill(pid, signal.SIGKILL)
+            except OSError:
+                pass
+
+    def __enter__(self):
+        import threading
+
+        self.t = threading.Timer(self.seconds, self._fire)
+        self.t.daemon = True
+        self.t.start()
+        return self
+
+    def __exit__(self, *a):
+        self.t.cancel()
+        return False
